@@ -118,11 +118,11 @@ def expected(ld):
                 csig = sigtools.signature(ld.callees[j])
                 if pr.route == 'kpartial':
                     csig = S.mask(S.forwards(S.signature(ld.module.KAPPLY), csig), 1)
-                if pr.route == 'helper':
+                if pr.route in ('helper', 'partial_helper'):
                     # what the shared helper forwards to once it has been handed this callee
                     csig = S.mask(S.forwards(S.signature(ld.module.APPLY), csig), 1)
                 sigs.append(S.forwards(own, csig, cs.npos, *cs.names, use_varargs=uva, use_varkwargs=uvk,
-                                       hide_args=hva, hide_kwargs=hvk, partial=pr.route == 'partial'))
+                                       hide_args=hva, hide_kwargs=hvk, partial=pr.route in ('partial', 'partial_helper')))
             res = S.merge(*sigs)
         except ValueError:
             return [pl], 'declaration-impossible'
@@ -169,7 +169,7 @@ def exec_call(ld, n, K):
         return False
     except Exception as e:  # noqa
         raise runner.HarnessError('generated program raised %s: %s\n%s' % (type(e).__name__, e, grammar.render(ld.prog, ld.uid)))
-    if ld.prog.route == 'partial' and isinstance(r, functools.partial):
+    if ld.prog.route in ('partial', 'partial_helper') and isinstance(r, functools.partial):
         # the wrapper returned functools.partial(callee, ...): surplus arguments must bind partially
         import inspect
         try:
